@@ -290,3 +290,185 @@ class NameSequence:
     def __next__(self):
         self.n += 1
         return "%s%06d" % (self.tag, self.n)
+
+
+# ------------------------------------------------------------------------------------------ threads inside the code
+class SimFuture:
+    """Future of a task handed to the simulated pool."""
+
+    def __init__(self, pool, fn, args, kwargs):
+        self._pool, self._fn, self._args, self._kwargs = pool, fn, args, kwargs
+        self._state = "pending"
+        self._result = None
+        self._exc = None
+        self._callbacks = []
+
+    def _run(self):
+        if self._state != "pending":
+            return
+        self._state = "running"
+        try:
+            self._result = self._fn(*self._args, **self._kwargs)
+            self._state = "done"
+        except Exception as e:  # noqa - kept in the future, as a worker thread would (BaseException = process death goes on)
+            self._exc = e
+            self._state = "failed"
+        for cb in self._callbacks:
+            try:
+                cb(self)
+            except Exception:  # noqa
+                pass
+
+    def result(self, timeout=None):
+        self._pool._run_until(self)
+        if self._state == "cancelled":
+            import concurrent.futures as cf
+            raise cf.CancelledError()
+        if self._exc is not None:
+            raise self._exc
+        return self._result
+
+    def exception(self, timeout=None):
+        self._pool._run_until(self)
+        return self._exc
+
+    def done(self):
+        return self._state in ("done", "failed", "cancelled")
+
+    def running(self):
+        return self._state == "running"
+
+    def cancelled(self):
+        return self._state == "cancelled"
+
+    def cancel(self):
+        if self._state == "pending":
+            self._state = "cancelled"
+            return True
+        return self._state == "cancelled"
+
+    def add_done_callback(self, fn):
+        if self.done():
+            fn(self)
+        else:
+            self._callbacks.append(fn)
+
+
+def make_sim_thread_seams(sim):
+    """Stand-ins for concurrent.futures.ThreadPoolExecutor and threading.Thread as seen by a module under test.  Worker
+    threads would run outside the simulator (their file operations could neither be stepped nor hit by a fault), so tasks
+    are kept and executed by the submitting simulated process itself - at a seeded moment: right at submit or when the
+    pool is drained / the thread is joined, in a seeded order.  Each such execution is a legal schedule of the real pool."""
+    counts = {"tasks": 0, "deferred": 0}
+
+    class SimThreadPool:
+        def __init__(self, max_workers=None, thread_name_prefix="", initializer=None, initargs=()):
+            self._pending = []
+            self._shutdown = False
+            if initializer is not None:
+                initializer(*initargs)
+
+        def submit(self, fn, /, *args, **kwargs):
+            if self._shutdown:
+                raise RuntimeError("cannot schedule new futures after shutdown")
+            f = SimFuture(self, fn, args, kwargs)
+            counts["tasks"] += 1
+            if sim.decider.choose("pool-submit", 2) == 0:
+                f._run()
+            else:
+                counts["deferred"] += 1
+                self._pending.append(f)
+            return f
+
+        def map(self, fn, *iterables, timeout=None, chunksize=1):
+            fs = [self.submit(fn, *args) for args in zip(*iterables)]
+
+            def gen():
+                for f in fs:
+                    yield f.result()
+            return gen()
+
+        def _run_until(self, fut):
+            while fut._state == "pending" and self._pending:
+                i = sim.decider.choose("pool-next", len(self._pending)) if len(self._pending) > 1 else 0
+                self._pending.pop(i)._run()
+
+        def shutdown(self, wait=True, *, cancel_futures=False):
+            self._shutdown = True
+            if cancel_futures:
+                for f in self._pending:
+                    f.cancel()
+                self._pending = []
+            while self._pending:
+                i = sim.decider.choose("pool-next", len(self._pending)) if len(self._pending) > 1 else 0
+                self._pending.pop(i)._run()
+
+        def __enter__(self):
+            return self
+
+        def __exit__(self, *a):
+            self.shutdown(wait=True)
+            return False
+
+    class SimThread:
+        def __init__(self, group=None, target=None, name=None, args=(), kwargs=None, *, daemon=None):
+            self._target, self._args, self._kwargs = target, args, kwargs or {}
+            self.name = name or "SimThread"
+            self.daemon = bool(daemon)
+            self._state = "new"
+
+        def run(self):
+            if self._target is not None:
+                self._target(*self._args, **self._kwargs)
+
+        def _go(self):
+            if self._state == "started":
+                self._state = "running"
+                try:
+                    self.run()
+                except Exception:  # noqa - an exception ends the thread, not the process
+                    pass
+                self._state = "finished"
+
+        def start(self):
+            self._state = "started"
+            counts["tasks"] += 1
+            if sim.decider.choose("thread-start", 2) == 0:
+                self._go()
+            else:
+                counts["deferred"] += 1
+
+        def join(self, timeout=None):
+            self._go()
+
+        def is_alive(self):
+            return self._state in ("started", "running")
+
+    return SimThreadPool, SimThread, counts
+
+
+def bind_thread_seams(modules, sim):
+    """Rebind ThreadPoolExecutor / Thread wherever a module under test holds them; returns (undo list, counters)."""
+    import concurrent.futures as cf
+    import threading as th
+    Pool, Thread, counts = make_sim_thread_seams(sim)
+    undo = []
+    fake_cf = types.SimpleNamespace(**{k: getattr(cf, k) for k in dir(cf) if not k.startswith("_")})
+    fake_cf.ThreadPoolExecutor = Pool
+    fake_th = types.SimpleNamespace(**{k: getattr(th, k) for k in dir(th) if not k.startswith("_")})
+    fake_th.Thread = Thread
+    for m in modules:
+        for name, v in list(vars(m).items()):
+            new = None
+            if v is cf.ThreadPoolExecutor:
+                new = Pool
+            elif v is th.Thread:
+                new = Thread
+            elif v is cf:
+                new = fake_cf
+            elif v is th:
+                new = fake_th
+            if new is not None:
+                undo.append((m, name, v))
+                setattr(m, name, new)
+    return undo, counts
